@@ -112,6 +112,13 @@ void op_pbat(toks *t)
                     if (end < buf || end > buf + eff) cjv_violation("c10/end-out-of-range", "%s: parse end %ld outside [0,%zu]", v->name, (long)(end - buf), eff);
                     else if (placement == 0) ends[vi] = (long)(end - buf);
                 }
+                if (led_fault_mode()) {
+                    /* fault enumeration over the battery (C10): only the parse itself is judged */
+                    if (placement == 0) acc[vi] = '1';
+                    lib_delete(r);
+                    ga_release(&g);
+                    continue;
+                }
                 if (wf_check(r, WF_ROOT, v->name) == 0) {
                     bb_reset(&tn_a);
                     if (tn_dump(&tn_a, r) < 0) cjv_violation("wf/cycle-or-runaway", "%s: dump of parsed tree did not terminate", v->name);
@@ -213,7 +220,9 @@ int tree_equiv(const cJSON *a, const cJSON *b, int nonfinite_as_null, char *why,
         double x = a->valuedouble, y = b->valuedouble;
         if (x == y) return 1;
         if (fabs(x) < 1e15 && x == floor(x)) { snprintf(why, whylen, "integer %.17g came back as %.17g", x, y); return 0; }
-        if (!(fabs(x - y) <= fabs(x) * ldexp(1.0, -52))) { snprintf(why, whylen, "number %.17g came back as %.17g", x, y); return 0; }
+        /* one part in 2^52 of the larger magnitude (the reading under which the boundary case - a
+         * value exactly 2^-52 away, relative to the larger of the two - still counts as within) */
+        if (!(fabs(x - y) <= (fabs(x) > fabs(y) ? fabs(x) : fabs(y)) * ldexp(1.0, -52))) { snprintf(why, whylen, "number %.17g came back as %.17g", x, y); return 0; }
         return 1;
     }
     case cJSON_String:
@@ -557,6 +566,7 @@ void op_deepchain(toks *t)
     obj = t->tok[2][0] == 'o';
     depth = tk_int(t->tok[3]);
     elder = t->n > 4 ? (int)tk_int(t->tok[4]) : 0;
+    if (t->n > 5) { const char *lp = t->tok[5]; cur = tn_build(&lp); depth--; }   /* innermost value given as TN */
     for (i = 0; i < depth; i++) {
         cJSON *outer;
         if (obj) { LIB_BEGIN("cJSON_CreateObject"); outer = cJSON_CreateObject(); LIB_END(); }
